@@ -56,6 +56,8 @@ simstream::Pipe* PIPE;
 Stub* STUB;
 int n_callers, n_calls;
 uint64_t reset_after_resp = ~0ULL; int reset_errno = 0; bool eof_instead = false;
+bool early_answers = false;        // hostile peer: answers a tag whose request is still being transmitted, then stalls
+uint64_t small_pipe = 0;           // capacity of the request direction in bytes (0 = unlimited): sends block
 bool per_wait_timeouts = false;     // SimStream: the stream timeout bounds each wait for bytes instead of the whole read
 bool cut_inside_body = false;       // the connection ends (FIN or reset) strictly inside the body of that response, not between frames
 volatile int calls_done = 0, responder_done = 0;
@@ -195,6 +197,7 @@ void responder(int) {
     std::string buf;
     bool peer_gone = false;
     bool conn_dead = false;            // the connection was cut (FIN or reset): nothing more is ever sent
+    uint64_t last_early_tag = 0;
     for (;;) {
         { sim::NoSched ns; if (calls_done == n_calls) break; }
         // 1. pull whatever request bytes are there
@@ -202,10 +205,28 @@ void responder(int) {
             char tmp[16384];
             ssize_t r = ep.recv(tmp, sizeof tmp);
             if (r > 0) buf.append(tmp, r);
-            else if (r == 0) peer_gone = true;
+            else if (r == 0 || (r < 0 && errno != ETIMEDOUT)) peer_gone = true;
         } else thread_usleep(200);
         while (buf.size() >= sizeof(Header)) {
             Header h; memcpy(&h, buf.data(), sizeof h);
+            if (buf.size() < sizeof h + h.size && early_answers && !conn_dead && h.tag != last_early_tag && !pend.empty() && sim::rnd(2) == 0) {   // (some call is waiting: there is a reader)
+                // the request is still on its way (its sender is blocked on the full pipe): answer its tag right now with a
+                // response header, never send the body, and stop reading for a while
+                last_early_tag = h.tag;
+                Header r; r.function = h.function; r.tag = h.tag; r.size = 64 + sim::rnd(200);
+                ep.timeout(-1ULL); ep.write(&r, sizeof r); ep.timeout(200);
+                sim::fault_fired("response_header_before_request_complete");
+                sim::note("responder: answers tag %llu although its request has not arrived completely, then stalls", (unsigned long long)h.tag);
+                if (sim::rnd(2)) {
+                    // ... and the connection breaks while the request is still being sent
+                    thread_usleep(200 + sim::rnd(2000));
+                    PIPE->a2b.reset_errno = ECONNRESET; PIPE->a2b.reset_at = PIPE->a2b.total_read; PIPE->a2b.writable.notify_all();
+                    PIPE->b2a.reset_errno = ECONNRESET; PIPE->b2a.reset_at = PIPE->b2a.total_read; PIPE->b2a.readable.notify_all();
+                    sim::fault_fired("connection_reset_while_sending");
+                } else
+                thread_usleep(30000);
+                conn_dead = true;           // whatever else were sent would be taken for that response's body: the peer stays silent from now on
+            }
             if (buf.size() < sizeof h + h.size) break;
             uint64_t id; memcpy(&id, buf.data() + sizeof h + h.size - sizeof(OpS::Request) + offsetof(OpS::Request, id), 8);   // (id sits at the same place in every kind: fixed body is last)
             // the fixed body is serialized last; find id by kind
@@ -343,6 +364,10 @@ void harness_run(uint64_t seed) {
     }
     n_calls = calls.size();
     per_wait_timeouts = sim::rnd(3) == 0;
+    if (hostile && sim::rnd(5) == 0) {
+        early_answers = true; small_pipe = 16 + sim::rnd(100);
+        for (auto& c : calls) if (c.timeout_us == 0 || c.timeout_us > 20000) c.timeout_us = 2000 + sim::rnd(8000);
+    } else if (sim::rnd(6) == 0) small_pipe = 16 + sim::rnd(400);
     if (sim::rnd(3) == 0 && n_callers >= 3) {
         // several deadlines inside one response's header|body gap: the reader is blocked in that body while one caller after
         // another gives up (and signals the others on its way out).  Callers issue their calls one after the other, so the
@@ -372,6 +397,7 @@ void harness_run(uint64_t seed) {
         }
         sim::probe("deadline_storm_inside_body_gap");
     }
+    if (early_answers) for (auto& c : calls) if (c.timeout_us == 0 || c.timeout_us > 20000) c.timeout_us = 2000 + sim::rnd(8000);   // the peer goes silent: every call needs a deadline
     if (hx::param("force_cut", 0)) { hostile = 2; for (auto& c : calls) { c.kind = 3 + (c.idx & 1); c.fate = 0; } }
     if (hostile == 2) { cut_inside_body = sim::rnd(2); reset_after_resp = sim::rnd(n_calls + 1); static const int EN[] = {ECONNRESET, EPIPE, EIO}; reset_errno = EN[sim::rnd(3)]; eof_instead = sim::rnd(2); if (hx::param("force_cut", 0)) { cut_inside_body = true; eof_instead = true; } }
     int s = sim::rnd(4);
@@ -386,7 +412,7 @@ void harness_run(uint64_t seed) {
     for (int k = 0; k < n_callers; k++) W.add(0, [k](int) { caller(k); });
     W.add(0, [](int id) { responder(id); });
     W.vcpu_pre = [](int) {
-        PIPE = new simstream::Pipe; PIPE->b2a.seg = seg; PIPE->a.tmo_per_wait = per_wait_timeouts;
+        PIPE = new simstream::Pipe; PIPE->b2a.seg = seg; PIPE->a.tmo_per_wait = per_wait_timeouts; if (small_pipe) PIPE->a2b.capacity = small_pipe;
         STUB = new_rpc_stub(&PIPE->a, false);
     };
     W.vcpu_end = [](int) {
